@@ -159,6 +159,10 @@ def _enum(tier):
             for deq in range(0, len(seq) + 1):
                 for pre in (5, 6):
                     out.append((st, seq, kind, deq, pre))
+                if deq in (0, len(seq)):
+                    # ... and a queue with room left: the other sender's messages are still ahead when the stream comes again
+                    for pre in (1, 3):
+                        out.append((st, seq, kind, deq, pre))
                 if len(seq) > 2 * f and deq:
                     out.append((st, seq, kind, deq, 0))
         for pat in itertools.product((0, 1, 2), repeat=f):
@@ -274,8 +278,9 @@ def run(scn):
     return res
 
 
-def _judge(res, delivered, sent, kind):
-    """delivered: list of (origin, type, bytes); sent: list of (origin, type, bytes)"""
+def _judge(res, delivered, sent, kind, twice_queued=()):
+    """delivered: list of (origin, type, bytes); sent: list of (origin, type, bytes); twice_queued: messages of which two copies
+    waited in the queue at the same time (the duplicate rule covers frames still queued)"""
     seen = {}
     for d in delivered:
         if d not in sent:
@@ -287,7 +292,8 @@ def _judge(res, delivered, sent, kind):
             seen[d] = seen.get(d, 0) + 1
     for d, n in seen.items():
         if n > sent.count(d):
-            res.add("at_most_once", {"kind": "redelivered", "pattern": kind}, "message from %o (%d bytes) dequeued %d times" % (d[0], len(d[2]), n))
+            res.add("at_most_once", {"kind": "redelivered", "pattern": kind, "first_copy_still_queued": d in twice_queued},
+                    "message from %o (%d bytes) dequeued %d times%s" % (d[0], len(d[2]), n, " (two copies waited in the queue together)" if d in twice_queued else ""))
 
 
 def _run_a(scn, w, res):
@@ -316,6 +322,12 @@ def _run_a(scn, w, res):
         while node.available():
             f = node.read()
             delivered.append((f.header.from_node, f.header.message_type, bytes(f.message)))
+
+    twice = set()
+
+    def look():
+        held = [(f.header.from_node, f.header.message_type, bytes(f.message)) for f in getattr(node.queue, "_queue", [])]
+        twice.update(h for h in held if held.count(h) > 1)
 
     n_in = 0
     # whole messages of another child already waiting in the bounded queue
@@ -358,8 +370,9 @@ def _run_a(scn, w, res):
         except Exception as e:
             res.add("intact", {"kind": "update_raised", "exc": type(e).__name__}, "update() raised %r" % (e,))
             return
+        look()
     dequeue_all()
-    _judge(res, delivered, sent, scn["kind"])
+    _judge(res, delivered, sent, scn["kind"], twice)
     res.nontrivial = n_in >= 2
     import hashlib
     res.isig = hashlib.blake2b(repr((scn["role"], scn["seq"], scn.get("deq"), scn.get("prefill", 0), [(s["fid"], s["len"], s["type"]) for s in streams])).encode(), digest_size=8).hexdigest()
